@@ -4,18 +4,18 @@ TwoTopics == <<"tk", "tu">>
 KnownTk == {"tk"}
 TwoGroups == {"gk", "gu"}
 OneGroupSet == {"gk"}
-AllApis == {"ApiVersions", "Metadata", "Produce", "Fetch", "FindCoordinator", "JoinGroup", "SyncGroup", "DescribeGroups",
+AllApis == {"ApiVersions", "Metadata", "Produce", "Fetch", "FetchById", "FindCoordinator", "JoinGroup", "SyncGroup", "DescribeGroups",
             "ListGroups", "Heartbeat", "LeaveGroup", "OffsetCommit", "OffsetFetch", "OffsetForLeaderEpoch", "DescribeConfigs",
             "DescribeBrokerConfigs", "AlterConfigs", "CreatePartitions", "DeleteGroups", "CreateTopics", "DeleteTopics",
             "ListOffsets", "ListOffsetsLatest", "ListOffsetsEarliest"}
-DataApis == {"Produce", "Fetch"}
+DataApis == {"Produce", "Fetch", "FetchById"}
 ProduceOnly == {"Produce"}
 BothAuto == {TRUE, FALSE}
 AutoOn == {TRUE}
 NoApis == {}
 NoAclMetadata == {"Metadata"}
 NoAclProduce == {"Produce"}
-NoAclFetch == {"Fetch"}
+NoAclFetch == {"Fetch", "FetchById"}
 NoAclListOffsets == {"ListOffsets", "ListOffsetsLatest", "ListOffsetsEarliest"}
 NoAclOffsetForLeaderEpoch == {"OffsetForLeaderEpoch"}
 NoAclDescribeConfigs == {"DescribeConfigs"}
